@@ -257,7 +257,8 @@ def _get_subcircuits(
             is_output: bool = node in outputs_set or not users
             if not is_output:
                 for user in users:
-                    if user not in cut_nodes[cut]:
+                    # a leaf of the cut that reads the gate is outside the cone as well
+                    if user not in cut_nodes[cut] or user in inputs:
                         is_output = True
                         break
             if is_output:
